@@ -332,6 +332,27 @@ func runC15(c *Ctx) {
 						if isCallNamed(r, "cache.joinPrefixAndPath") {
 							okSrc = true
 						}
+						// a same-package helper every return of which is the joined index path
+						if call, isCall := r.(*ssa.Call); isCall && !okSrc {
+							if g := staticCallee(&call.Call); g != nil && g.Pkg == f.Pkg && len(g.Blocks) > 0 {
+								all, nret := true, 0
+								instrs(g, func(gi ssa.Instruction) {
+									if ret, isRet := gi.(*ssa.Return); isRet && len(ret.Results) == 1 {
+										nret++
+										ok1 := false
+										for _, sv := range append(storedValues(ret.Results[0]), ret.Results[0]) {
+											if isCallNamed(sv, "cache.joinPrefixAndPath") {
+												ok1 = true
+											}
+										}
+										if !ok1 {
+											all = false
+										}
+									}
+								})
+								okSrc = all && nret > 0
+							}
+						}
 					}
 					// Reset: a child name of the target's tree (top-level index element)
 					if ex, ok := o.(*ssa.Extract); ok {
@@ -485,6 +506,31 @@ func nonMetaCounter(delta ssa.Value, metaRoot string) bool {
 	if !ok || u.Op != token.MUL {
 		return false
 	}
+	// the counter kept in a field of a small collector object (r.deleted): every store to that field
+	// in the package, other than a zero initialisation, must sit under a metadata test
+	if fa, isFA := u.X.(*ssa.FieldAddr); isFA {
+		fld := fieldOf(fa)
+		if fld == nil || fld.Pkg() == nil {
+			return false
+		}
+		n, all := 0, true
+		for fn := range allFnsOfPkg(fa.Parent()) {
+			instrs(fn, func(in ssa.Instruction) {
+				st, ok := in.(*ssa.Store)
+				if !ok || fieldOf(st.Addr) != fld {
+					return
+				}
+				if k, isK := constInt(st.Val); isK && k == 0 {
+					return
+				}
+				n++
+				if !guardedByMetaTest(st, metaRoot) {
+					all = false
+				}
+			})
+		}
+		return n > 0 && all
+	}
 	cell, ok := u.X.(*ssa.Alloc)
 	if !ok {
 		return false
@@ -572,4 +618,42 @@ func pathNoIf(p *Path) string {
 		}
 	}
 	return strings.Join(l, " ; ")
+}
+
+// allFnsOfPkg: the source functions (incl. closures) of the package f belongs to.
+func allFnsOfPkg(f *ssa.Function) map[*ssa.Function]bool {
+	out := map[*ssa.Function]bool{}
+	top := f
+	for top.Parent() != nil {
+		top = top.Parent()
+	}
+	if top.Pkg == nil {
+		return out
+	}
+	var add func(g *ssa.Function)
+	add = func(g *ssa.Function) {
+		if out[g] || len(g.Blocks) == 0 {
+			return
+		}
+		out[g] = true
+		for _, a := range g.AnonFuncs {
+			add(a)
+		}
+	}
+	for _, m := range top.Pkg.Members {
+		switch x := m.(type) {
+		case *ssa.Function:
+			add(x)
+		case *ssa.Type:
+			for _, T := range []types.Type{x.Type(), types.NewPointer(x.Type())} {
+				ms := top.Prog.MethodSets.MethodSet(T)
+				for i := 0; i < ms.Len(); i++ {
+					if g := top.Prog.MethodValue(ms.At(i)); g != nil && g.Pkg == top.Pkg {
+						add(g)
+					}
+				}
+			}
+		}
+	}
+	return out
 }
